@@ -594,7 +594,7 @@ func runOval(r *hx.Run, g *gen, cfg hx.Config) {
 			for _, k := range sortedKeys(oraclePlatforms) {
 				l.str(k).str(oraclePlatforms[k])
 			}
-			sev, sevs = oracle.NormalizeSeverity, []string{"N/A", "LOW", "MODERATE", "IMPORTANT", "CRITICAL", "Important", "", "moderate"}
+			sev, sevs = oracle.NormalizeSeverity, []string{"N/A", "LOW", "MODERATE", "IMPORTANT", "CRITICAL", "Important", "", "moderate", " LOW", "LOW "}
 		case "suse":
 			b.ns = "org.opensuse.security"
 			u, err := suse.NewUpdater(suseDist)
@@ -607,7 +607,7 @@ func runOval(r *hx.Run, g *gen, cfg hx.Config) {
 			}
 			dist = distKey(suseDist)
 			l.str(u.Name()).str(dist)
-			sev, sevs = suse.NormalizeSeverity, []string{"None", "Low", "Moderate", "Important", "Critical", "important", "", "High"}
+			sev, sevs = suse.NormalizeSeverity, []string{"None", "Low", "Moderate", "Important", "Critical", "important", "", "High", " Low", "Critical "}
 		case "photon":
 			b.ns = "com.vmware.phsa"
 			rel := g.r.Pick("photon1", "photon2", "photon3", "photon4")
@@ -624,7 +624,7 @@ func runOval(r *hx.Run, g *gen, cfg hx.Config) {
 				dist = mkDistKey("photon", v, "", "VMware Photon OS", v, "VMware Photon OS/Linux", "")
 			}
 			l.str(u.Name()).str(dist)
-			sev, sevs = photon.NormalizeSeverity, []string{"Low", "Moderate", "Important", "Critical", "critical", "", "None"}
+			sev, sevs = photon.NormalizeSeverity, []string{"Low", "Moderate", "Important", "Critical", "critical", "", "None", " Low", "Important "}
 		case "rhel":
 			b.ns = "com.redhat.rhsa"
 			rel := 6 + g.r.Intn(4)
@@ -643,7 +643,7 @@ func runOval(r *hx.Run, g *gen, cfg hx.Config) {
 				ign = 1
 			}
 			l.str(u.Name()).str(dist).n(ign)
-			sev, sevs = rhel.NormalizeSeverityForC14, []string{"None", "Low", "Moderate", "Important", "Critical", "IMPORTANT", "low", "", "High"}
+			sev, sevs = rhel.NormalizeSeverityForC14, []string{"None", "Low", "Moderate", "Important", "Critical", "IMPORTANT", "low", "", "High", " Low", "Moderate "}
 		case "ubuntu":
 			b.ns = "com.ubuntu.focal"
 			rels := [][2]string{{"focal", "20.04"}, {"jammy", "22.04"}, {"noble", "24.04"}}
